@@ -991,10 +991,11 @@ Section Commit.
 
     Lemma H0_rollback (Q : unit -> tree -> Prop) :
       H0 RBpre
-         (attempt (write_file pinv oinv ;; write_file pside osd) ;; attempt (step (SRename dest src)) ;; throw EGeneral)
+         (attempt (ret tt) ;; attempt (write_file pinv oinv ;; write_file pside osd) ;; attempt (step (SRename dest src)) ;; throw EGeneral)
          Q (fun e t => is_os e = false /\ forall x, lookup t x = lookup t1 x).
     Proof.
       destruct (src_dest_disjoint h) as [D1 D2]. fold src dest in D1, D2.
+      eapply H0_attempt_drop with (Q1 := RBpre) (E1 := fun _ _ => False); [apply H0_ret; auto | intros e t [] |].
       eapply H0_attempt_drop with (Q1 := RB2) (E1 := fun _ _ => False); [| intros e t [] |].
       - eapply H0_andthen with (Q1 := fun t => RBpre t /\ lookup t pinv = Some (File oinv)).
         + eapply H0_conseq; [apply (H0_write_file_existing RBpre pinv oinv pinv_ne) | auto | | auto].
@@ -1065,7 +1066,7 @@ Section Commit.
       rewrite EX.
       assert (R1 : read_file t1 pinv = Some oinv) by (apply read_file_lookup; rewrite t1_main by apply under_app; exact MInv).
       assert (R2 : read_file t1 pside = Some osd) by (apply read_file_lookup; rewrite t1_main by apply under_app; exact MSide).
-      rewrite R1, R2.
+      rewrite R1, R2. cbn [i_spec]. change (i_spec i) with (i_spec i0). rewrite SameSpec, seg_eqb_refl. cbv beta iota zeta. cbn [negb]. cbv beta iota.
       eapply H_andthen with (Q1 := fun t => t = s1).
       { destruct (src_dest_disjoint h) as [D1 D2]. fold src dest in D1, D2.
         apply (H_step_eq _ t1 s1); [| reflexivity | split; reflexivity | cbn; auto].
@@ -1076,8 +1077,8 @@ Section Commit.
         - unfold dest. rewrite parent_app. apply is_dir_lookup. now rewrite (t1_main Mo (under_refl _)).
         - apply t1_free, under_refl. }
       eapply H_attempt_bind with (Q1 := fun t => t = s5) (E1 := E1V).
-      - apply H_copy_root.
-      - cbn [i_spec]. change (i_spec i) with (i_spec i0). rewrite SameSpec, seg_eqb_refl. cbn [negb]. apply H_ret. auto.
+      - eapply H_andthen; [apply H_copy_root | apply H_ret; auto].
+      - apply H_ret. auto.
       - intros e O. apply H_false_pre. intros t [X _]. congruence.
       - intros e O. eapply H0_conseq; [apply (H0_rollback (fun _ t => t = s5)) | | auto | auto]. intros t [_ R]. exact R.
     Qed.
